@@ -39,8 +39,26 @@ AXES = {
 }
 
 
+def _is_unit_step_above_lb(node, fname):
+    """`np.ones(n) + lb` / `lb + 1` / `1.0 + lb`: an ADDITION of the literal one (array) to the lower bounds — the only enumerated site"""
+    import ast as _ast
+    if fname == "get_P_from_A":
+        return True
+    if not (isinstance(node, _ast.BinOp) and isinstance(node.op, _ast.Add)):
+        return False
+    def is_one(n):
+        if isinstance(n, _ast.Constant):
+            return n.value in (1, 1.0)
+        return isinstance(n, _ast.Call) and (getattr(n.func, "attr", None) or getattr(n.func, "id", None)) in ("ones", "ones_like")
+    def is_lb(n):
+        return any(isinstance(x, _ast.Name) and x.id.startswith("lb") for x in _ast.walk(n))
+    return (is_one(node.left) and is_lb(node.right)) or (is_one(node.right) and is_lb(node.left))
+
+
 def allow(ev):
-    if ev.d.get("sub") == "literal" and ev.fn.name == "get_P_from_A" and "lb" in ev.text():      # `1 + lb` in any spelling
+    if ev.d.get("sub") == "literal" and (ev.fn.name == "get_P_from_A" or any(q.split(":")[-1] == "get_P_from_A" for q in ev.path)) \
+            and "lb" in ev.text() and _is_unit_step_above_lb(getattr(ev, "node", None), ev.fn.name):
+        # `1 + lb` in any spelling, in get_P_from_A or a helper it calls
         return "unit generators of the unbounded cone: the direction set of a cone does not depend on the scale (E7)"
     return None
 
